@@ -205,6 +205,9 @@ func (b *expandBody) expandBlocks(schema *hcl.BodySchema, rawBlocks hcl.Blocks, 
 			}
 
 			forEachVal, marks := spec.forEachVal.Unmark()
+			// Everything generated here also depends on whatever our own
+			// body was generated from.
+			marks = mergeValueMarks(b.valueMarks, marks)
 			if forEachVal.IsKnown() {
 				for it := forEachVal.ElementIterator(); it.Next(); {
 					key, value := it.Element()
@@ -242,13 +245,30 @@ func (b *expandBody) expandBlocks(schema *hcl.BodySchema, rawBlocks hcl.Blocks, 
 				// case it contains expressions that refer to our inherited
 				// iterators, or nested "dynamic" blocks.
 				expandedBlock := *rawBlock // shallow copy
-				expandedBlock.Body = b.expandChild(rawBlock.Body, b.iteration, nil)
+				expandedBlock.Body = b.expandChild(rawBlock.Body, b.iteration, b.valueMarks)
 				blocks = append(blocks, &expandedBlock)
 			}
 		}
 	}
 
 	return blocks, diags
+}
+
+func mergeValueMarks(a, b cty.ValueMarks) cty.ValueMarks {
+	if len(a) == 0 {
+		return b
+	}
+	if len(b) == 0 {
+		return a
+	}
+	ret := make(cty.ValueMarks, len(a)+len(b))
+	for m := range a {
+		ret[m] = struct{}{}
+	}
+	for m := range b {
+		ret[m] = struct{}{}
+	}
+	return ret
 }
 
 func (b *expandBody) expandChild(child hcl.Body, i *iteration, valueMarks cty.ValueMarks) hcl.Body {
